@@ -98,6 +98,9 @@ func GetAllSentinelInfo(context db.DB) []*SentinelInfo {
 			common.DealWithErr(iterator.Error())
 			break
 		}
+		if len(iterator.Value()) == 0 {
+			continue
+		}
 		sentinelInfoList = append(sentinelInfoList, parseSentinelInfo(iterator.Value()))
 	}
 	return sentinelInfoList
@@ -110,6 +113,9 @@ func IterateSentinelEntries(context db.DB, f func(*SentinelInfo) error) error {
 		if !iterator.Next() {
 			common.DealWithErr(iterator.Error())
 			break
+		}
+		if len(iterator.Value()) == 0 {
+			continue
 		}
 
 		sentinelInfo := parseSentinelInfo(iterator.Value())
